@@ -54,4 +54,5 @@ def run(ctx, rep):
     rep.run(RP.rule_class_block_by_evaluation, ctx, rep, "W14", part="wellformed")
     # W15: every operator entry has the form pybind11 knows (`.def(-py::self)`, `.def(py::self - py::self)`): `.def(py::self)` alone matches no overload (= C03 A11)
     rep.run(RP.rule_operator_bindings_by_evaluation, ctx, rep, "W15")
+    rep.run(RI.rule_explicit_template_arguments_by_evaluation, ctx, rep, "W16")
     rep.run(RF.rule_locals_defined, ctx, rep, "U1", packages=("gtwrap/pybind_wrapper.py",), min_functions=3)
